@@ -55,6 +55,15 @@ class Cfg:
         # statements of a message (fields, oneofs, range and reserved-name statements) in shuffled order, so that
         # field numbers, names and ranges are not ascending in the descriptor
         self.adversarial_order = False
+        # group-like fields (default off: with the knob off the random stream and the output are exactly what they
+        # were before it existed): in editions files, message-typed fields for every spelling relation between the
+        # field's name and the simple name of its message type (the lower-cased type name, equal only ignoring case,
+        # the very same spelling, a near miss, unrelated) x where the type is declared (same scope as the field,
+        # inside a sibling, the enclosing scope, the containing message itself, an imported file) x how the encoding
+        # is chosen (DELIMITED / LENGTH_PREFIXED / MESSAGE_ENCODING_UNKNOWN on the field, inherited from the file)
+        # x position (singular, repeated, oneof member, extension at message and file scope), with and without an
+        # explicit json_name; in proto2 files also groups declared in extend blocks
+        self.grouplike = False
         self.__dict__.update(kw)
 
 
@@ -392,6 +401,88 @@ class _Gen:
     def opt_text(self, opts):
         return " [%s]" % ", ".join(opts) if opts else ""
 
+    # ---- group-like fields (Cfg.grouplike)
+    def gl_field_name(self, tname, same_scope):
+        """A field name by its spelling relation to the simple name of its message type. In the scope of the type
+        itself the very same spelling would be a duplicate symbol, so it is only used for types declared elsewhere."""
+        rng = self.rng
+        low = tname.lower()
+        rel = rng.choice(["lower", "lower", "case", "case", "case", "exact", "near", "other"])
+        if rel == "lower" and not (same_scope and low == tname):
+            return low
+        if rel == "exact" and not same_scope:
+            return tname
+        if rel == "near":
+            return rng.choice([low + "_", low + "x", "x" + low, low + "_" + low])
+        if rel == "other":
+            return "f%d" % self.uid()
+        cands = []
+        for c in (tname.upper(), tname.swapcase(), tname[0].lower() + tname[1:], tname[0].upper() + tname[1:].lower(),
+                  low[:-1] + low[-1].upper(), low[0].upper() + low[1:]):
+            if c != low and c.lower() == low and not (same_scope and c == tname) and c not in cands:
+                cands.append(c)
+        if cands:
+            return rng.choice(cands)
+        return "f%d" % self.uid()
+
+    def gl_make(self, number, here, outer, in_oneof=False, is_ext=False):
+        """One message-typed field of an editions file and, where needed, the declaration of its type.
+        here = full name of the scope the field is declared in (the containing message; for an extension the scope of
+        the extend block), outer = full name of the scope around `here` (None: unknown / not usable).
+        Returns {"here": declarations for the scope of the field, "outer": declarations for the enclosing scope
+        (to be put after the containing message), "field": the field line}."""
+        rng, cfg = self.rng, self.cfg
+        k = self.uid()
+        tname = rng.choice(["Grp%d", "Grp%d", "MyGroup%d", "GRP%d", "grp%d", "gRp%d", "My_Grp%d", "G%d"]) % k
+        body = "{ int32 x%d = 1; }" % k
+        locs = ["sibling"] * 4 + ["inner"]
+        if outer is not None:
+            locs.append("outer")
+        if not is_ext and here:
+            locs.append("self")
+        imported = [m for g in self.visible for m in g.msgs]
+        if imported:
+            locs.append("imported")
+        loc = rng.choice(locs)
+        out = {"here": [], "outer": []}
+        same_scope = False
+        if loc == "sibling":
+            fqn = (here + "." if here else "") + tname
+            out["here"].append("message %s %s" % (tname, body))
+            same_scope = True
+        elif loc == "inner":
+            fqn = (here + "." if here else "") + "Hold%d." % k + tname
+            out["here"].append("message Hold%d { message %s %s }" % (k, tname, body))
+        elif loc == "outer":
+            fqn = (outer + "." if outer else "") + tname
+            out["outer"].append("message %s %s" % (tname, body))
+        elif loc == "self":
+            fqn = here
+            tname = here.rsplit(".", 1)[-1]
+        else:
+            fqn = rng.choice(imported)[0]
+            tname = fqn.rsplit(".", 1)[-1]
+            # a file-level extension and a top-level message of an imported file of the same package have the same
+            # parent NAME without being declared in the same scope
+        name = self.gl_field_name(tname, same_scope)
+        opts = []
+        file_enc = self.file_feature("message_encoding")
+        r = rng.below(8)
+        if r < 4:
+            opts.append("features.message_encoding = DELIMITED")
+        elif r == 4:
+            opts.append("features.message_encoding = LENGTH_PREFIXED")
+        elif r == 5 and cfg.unknown_values:
+            opts.append("features.message_encoding = MESSAGE_ENCODING_UNKNOWN")
+        # else: inherited from the file (DELIMITED there in some files)
+        if rng.chance(1, 6) and not is_ext:
+            opts.append('json_name = "%s"' % rng.choice(["j%d" % k, tname, tname.lower(), name]))
+        if rng.chance(1, 10):
+            opts.append("deprecated = true")
+        label = "repeated " if (not in_oneof and rng.chance(1, 4)) else ""
+        out["field"] = "%s%s %s = %d%s;" % (label, self.spell(fqn), name, number, self.opt_text(opts))
+        return out
+
     # ---- messages
     def gen_message(self, ind, scope, depth):
         rng, f, cfg = self.rng, self.f, self.cfg
@@ -443,6 +534,33 @@ class _Gen:
                 self.gen_field(ind + 2, number, in_oneof=True)
             self.emit(ind + 1, "}")
             grab()
+        deferred = []
+        if cfg.grouplike and f.syntax == "editions":
+            for _ in range(rng.range(0, 2)):
+                number += 1
+                g = self.gl_make(number, fqn, scope)
+                for ln in g["here"] + [g["field"]]:
+                    self.emit(ind + 1, ln)
+                deferred += g["outer"]
+                grab()
+            if rng.chance(1, 3):
+                members, decls = [], []
+                for _ in range(rng.range(1, 2)):
+                    number += 1
+                    g = self.gl_make(number, fqn, scope, in_oneof=True)
+                    members.append(g["field"])
+                    decls += g["here"]
+                    deferred += g["outer"]
+                for ln in decls:
+                    self.emit(ind + 1, ln)
+                self.emit(ind + 1, "oneof og%d {" % self.uid())
+                for ln in members:
+                    self.emit(ind + 2, ln)
+                if rng.chance(1, 2):
+                    number += 1
+                    self.emit(ind + 2, "int32 f%d = %d;" % (self.uid(), number))
+                self.emit(ind + 1, "}")
+                grab()
         if adv:
             for stmt in self.adv_msg_ranges(extendable, number):
                 self.emit(ind + 1, stmt)
@@ -467,6 +585,8 @@ class _Gen:
             self.gen_extend(ind + 1)
         self.emit(ind, "}")
         self.scope_stack.pop()
+        for ln in deferred:
+            self.emit(ind, ln)
         return fqn
 
     # ---- adversarial declaration orders (Cfg.adversarial_order)
@@ -568,7 +688,20 @@ class _Gen:
             n = nums.get(ext[0], 1000)
             nums[ext[0]] = n + 1
             self.gen_field(ind + 1, n, is_ext=True)
+        after = []
+        if self.cfg.grouplike and rng.chance(1, 2):
+            n = nums.get(ext[0], 1000)
+            nums[ext[0]] = n + 1
+            here = self.scope_stack[-1] if self.scope_stack else self.f.package
+            if self.f.syntax == "editions":
+                g = self.gl_make(n, here, None, is_ext=True)
+                self.emit(ind + 1, g["field"])
+                after = g["here"]
+            elif self.f.syntax == "proto2":
+                self.emit(ind + 1, "%s group ExtG%d = %d { optional int32 gx%d = 1; }" % (rng.choice(["optional", "repeated"]), self.uid(), n, self.uid()))
         self.emit(ind, "}")
+        for ln in after:
+            self.emit(ind, ln)
 
     def gen_service(self):
         rng = self.rng
